@@ -168,6 +168,15 @@ func c06Config(c *ev.Ctx, cfg string) (int64, int64, int64) {
 			}
 			break // one operation per store is enough: the ids have one format
 		}
+		// a version time before 1970 is before every operation
+		if i%4 == 1 {
+			for _, vt := range []string{"1969-12-31T23:59:59Z", "0001-01-01T00:00:00Z", "1970-01-01T00:00:00+01:00"} {
+				localCuts++
+				if got, _, err := e.Resolve(cs.Ops, document.WithVersionTime(vt)); err == nil {
+					c.Violation("version-time-before-epoch-resolves", map[string]interface{}{"store": e.Describe(cs.Ops), "version_time": vt, "observed": got})
+				}
+			}
+		}
 		// unknown version id must be an error
 		localCuts++
 		if got, _, err := e.Resolve(cs.Ops, document.WithVersionID("ref-unknown")); err == nil {
